@@ -194,6 +194,37 @@ pub fn alphabet_of(ms: &[Mapping]) -> Vec<u16> {
   alpha
 }
 
+// alphabet of a layout of the family: its own keys, the foreign keys, and any extra codes named in the tag
+// after '+' (tag "alias/96+352+608": also press/release 352 and 608)
+pub fn alphabet_for(nl: &NamedLayout) -> Vec<u16> {
+  let mut alpha = alphabet_of(&nl.mappings);
+  for part in nl.tag.split('+').skip(1) {
+    if let Ok(c) = part.parse::<u16>() { if !alpha.contains(&c) { alpha.push(c); } }
+  }
+  alpha
+}
+
+// Family X: keys whose codes differ from a trigger/output key by a power of two (64 .. 512) are pressed as
+// foreign keys next to it: an index or hash that confuses key codes "modulo something" shows up here
+pub fn family_alias() -> Vec<NamedLayout> {
+  let mut res = vec![];
+  for k in [A, 96u16, 57, 42, 28] {
+    let mut extra: Vec<u16> = vec![];
+    for d in [64u16, 128, 256, 512] {
+      let c = k + d;
+      let valid: Option<crate::key_codes::KeyCode> = num_traits::FromPrimitive::from_u16(c);
+      if valid.is_some() { extra.push(c); }
+    }
+    if extra.is_empty() { continue; }
+    let tag = format!("alias/{}{}", k, extra.iter().map(|c| format!("+{}", c)).collect::<String>());
+    res.push(NamedLayout { tag, mappings: vec![
+      mk(&[k], &[45], Repeat::Normal, &[]),
+      mk(&[k, B], &[21], Repeat::Normal, &[]),
+    ] });
+  }
+  res
+}
+
 // Family M: for every standard modifier M, a key-producing mapping with M in its output, a plain mapping and
 // a no-repeat mapping (stale modifiers, no-repeat release) and M as a trigger modifier
 pub fn family_modifiers() -> Vec<NamedLayout> {
@@ -227,7 +258,7 @@ pub fn explore(nl: &NamedLayout, id: usize, max_held: usize, node_cap: usize, ou
   let mut stats = GraphStats { nodes: 0, edges: 0, truncated: false, panics: 0, fired_edges: 0 };
   writeln!(out, "LAYOUT {} {}", id, nl.tag).unwrap();
   for m in &nl.mappings { writeln!(out, "{}", mapping_line(m)).unwrap(); }
-  let alpha = alphabet_of(&nl.mappings);
+  let alpha = alphabet_for(nl);
   let astr: Vec<String> = alpha.iter().map(|k| k.to_string()).collect();
   writeln!(out, "ALPHA {}", astr.join(" ")).unwrap();
   writeln!(out, "MAXHELD {}", max_held).unwrap();
@@ -311,7 +342,7 @@ pub fn walk(nl: &NamedLayout, id: usize, steps: usize, rng: &mut Rng, out: &mut 
   let mut stats = GraphStats { nodes: 0, edges: 0, truncated: false, panics: 0, fired_edges: 0 };
   writeln!(out, "LAYOUT {} {}", id, nl.tag).unwrap();
   for m in &nl.mappings { writeln!(out, "{}", mapping_line(m)).unwrap(); }
-  let alpha = alphabet_of(&nl.mappings);
+  let alpha = alphabet_for(nl);
   writeln!(out, "ALPHA").unwrap();
   writeln!(out, "MAXHELD 0").unwrap();
   let layout = Layout { mappings: nl.mappings.clone() };
@@ -417,6 +448,7 @@ pub fn main(args: &[String]) -> i32 {
   for l in singles { layouts.push((l, false)); }
   for l in family_multi(&mut rng, n_multi) { layouts.push((l, false)); }
   for l in family_modifiers() { layouts.push((l, false)); }
+  for l in family_alias() { layouts.push((l, false)); }
   for l in builtin_layouts() { layouts.push((l, true)); }
 
   let total = layouts.len();
